@@ -191,6 +191,8 @@ class World:
         if isinstance(kind, tuple):
             if kind[0] == "ref":
                 return self.Ref
+            if kind[0] == "opt" and kind[1] == "int":
+                return self.optint_sort()
             if kind[0] == "opt":
                 return self.sort_of(kind[1])
             if kind[0] == "enum":
@@ -257,8 +259,16 @@ class World:
                                               patterns=[SAt(f(x, l, m), k)]))
         return self.ufs[name](a, lo, n)
 
+    def optint_sort(self):
+        if "OptInt" not in self._seq_sorts:
+            d = z3.Datatype("OptInt")
+            d.declare("none")
+            d.declare("some", ("val", z3.IntSort()))
+            self._seq_sorts["OptInt"] = d.create()
+        return self._seq_sorts["OptInt"]
+
     def base_kind(self, kind):
-        while isinstance(kind, tuple) and kind[0] == "opt":
+        while isinstance(kind, tuple) and kind[0] == "opt" and kind[1] != "int":
             kind = kind[1]
         return kind
 
